@@ -55,11 +55,18 @@ def _predict_forest_keys(db, ev):
             return RuleBucket.EQUIV
         return RuleBucket.REVERSE if reverse else RuleBucket.NORMAL
 
-    # a child counts as empty only when the rule admits empty children: for a rule with
-    # possibly_empty False the searcher tells the class database that the children are
-    # non-empty (the strategy's documented promise), and the keys are computed from that
+    # Emptiness of a child is the truth - except for a truly empty child of a rule that
+    # admits no empty children.  That only happens below an empty parent, and there the class
+    # database holds what a client told it (add_rule: "non-empty", the strategy's promise;
+    # _symmetry_expand: the parent's emptiness), which is an input to the rule database, not
+    # its doing: the keys are predicted from that recorded belief.
     def child_empty(c):
-        return bool(rule.possibly_empty) and _truly_empty(c)
+        if not _truly_empty(c):
+            return False
+        if rule.possibly_empty:
+            return True
+        base.ctx().count("faithful.emptiness_as_told_by_client")
+        return bool(db.classdb.is_empty(c, db.classdb.get_label(c)))
 
     nonempty = sum(1 for c in rule.children if not child_empty(c))
     keys = [ForestRuleKey(start, labels, tuple(rule.shifts()), bucket_of(rule, nonempty, False))]
